@@ -145,11 +145,11 @@ def run_both(cases, jobs=None):
 
 
 # ----------------------------------------------------------------- comparison
-def compare_case(case, impl, model, project):
+def compare_case(case, impl, model, project, start=0):
     """Return None if the projections agree on every event, else a description."""
     li = impl.get(case.cid, {})
     lm = model.get(case.cid, {})
-    for k in range(len(case.events)):
+    for k in range(start, len(case.events)):
         a, b = li.get(k), lm.get(k)
         if a is None and b is None:
             continue
